@@ -401,6 +401,8 @@ def auto_proxy(director, sc, real_objects):
       shared_attr(director, obj, attr, mname)
     elif kind == "list":
       setattr(obj, attr, registry_proxies(director)[0](getattr(obj, attr)))
+    elif kind == "dict":
+      setattr(obj, attr, make_dict(director, mname))
 
 
 def shared_class_attrs(director, module, clsname, names, initial=None):
